@@ -11,17 +11,18 @@ def run(ctx, replay):
     res = ctx.tlc_trace("C20_Trace", "C20_Trace.cfg", trace)
     ctx.traces += 1
     for e in events:
-        ctx.count_case(e["t"], nontrivial=True)
+        ctx.count_case((e["t"], e.get("t2")), nontrivial=True)
     for t in (-1, 1005, 1074, 1137, 1230, 4095):
         ctx.sample(events[t + 2])
     for i in res["bad"]:
         e = events[i - 1]
-        ctx.violation(dict(kind="classification", type=e["t"]), dict(event=e))
-    ctx.extra["types_enumerated"] = len(events)
+        ctx.violation(dict(kind="time-dispatch" if "t2" in e else "classification", type=e["t"]), dict(event=e))
+    ctx.extra["types_enumerated"] = sum(1 for e in events if "t2" not in e)
+    ctx.extra["dispatch_pairs"] = sum(1 for e in events if "t2" in e)
     return ctx.finish(
         level="model_checking",
         rule="one case per message type in -2..4095 (complete enumeration, 4098 events, order and completeness checked by the spec); "
-             "each event carries every classifier's answer on that type and on a synthetic CRC-valid frame of that type",
+             "each event carries every classifier's answer on that type and on a synthetic CRC-valid frame of that type; plus all 48 ordered pairs of MSM types of different timed constellations (the time conversion of one must not be disturbed by the other)",
         assumptions=["the synthetic frame (timestamp 1000, all-zero body, 40-byte payload) is well-formed for every decoder family, so "
                      "'accepted by exactly its own family' is observable as err == nil",
                      "constellation names are compared after normalisation (case-insensitive token gps/glonass/galileo/sbas/qzss/beidou/navic)"],
